@@ -124,7 +124,9 @@ def main() -> int:
         return 3
 
     jobs = load_jobs()
-    sel = [k for k, j in jobs.items() if prop in j.props and (a.tier == "thorough" or j.tier == "quick") and a.only in k]
+    extra_sel = info.get("extra_jobs")
+    extra_pref = tuple(info.get("extra_prefixes", []))
+    sel = [k for k, j in jobs.items() if (prop in j.props or (extra_sel is not None and extra_sel(j))) and (a.tier == "thorough" or j.tier == "quick") and a.only in k]
     mp.set_start_method("fork")
     results: List[Dict[str, Any]] = []
     with mp.Pool(min(a.procs, max(1, len(sel)))) as pool:
@@ -163,7 +165,8 @@ def main() -> int:
     for d in results:
         if d.get("error"):
             errors.append(f"{d['job']}: {d['error'][:600]}")
-        mine = [o for o in d["obligations"] if o["name"].startswith(prop + ":") or jobs[d["job"]].shared]
+        is_extra = extra_sel is not None and prop not in jobs[d["job"]].props
+        mine = [o for o in d["obligations"] if (o["name"].startswith(prop + ":") and not is_extra) or (jobs[d["job"]].shared and not is_extra) or (is_extra and o["name"].startswith(extra_pref))]
         for o in mine:
             o["job"] = d["job"]
             obligations.append(o)
@@ -240,6 +243,13 @@ def main() -> int:
             rj["replay_output"] = f"replay failed to run: {e}"
         rj["reproduced_on_real_code"] = reproduced
         json.dump(rj, open(path, "w"), indent=1, default=str)
+        if not reproduced and (o.get("info") or {}).get("generic_ops"):
+            # the failed obligation depends on an UNMODELLED torch function and the real code does
+            # not reproduce the failure: undecided, not a violation
+            n_viol -= 1
+            undecided.append(o)
+            out_lines.append(f"UNDECIDED property={prop} obligation={o['name']} depends on unmodelled torch function(s) {o['info']['generic_ops']}; replay on the real code did not reproduce (file {path})")
+            continue
         suffix = "" if reproduced else " no-failing-input-found"
         out_lines.append(f"VIOLATION property={prop} replay={path} obligation={o['name']}{suffix}")
         exit_code = 1
